@@ -29,6 +29,16 @@ CLAIMED["C17"] = ("Bounded symbolic differential model checking of the vi operat
  "Trusted: gosx, paint stubs, terminal stub. Visual-mode variants (v m d / v m y) are not driven.",
  "symbolic execution of the real SSA (two Readline runs per path) + SMT (z3) equivalence assertions", "DESIGN.md §5 C17")
 
+CLAIMED["C01"] = ("Bounded symbolic model checking of crash/hang freedom of the real Readline loop: (a) every registered command by name, typed through a key binding in emacs / vi-insert / vi-command from a symbolic buffer, cursor and mark, key-reading commands being fed a symbolic byte; (b) fully symbolic key bytes after context-opening prefixes (ESC, C-x, quoted-insert, vi operators, registers, f/r, visual), in one read or split; (c) stdin reporting EOF or an error at the end of the script; (d) a cursor-position report typed as input. Every Go panic, channel deadlock, busy loop on dead input and loop-budget overrun is an engine outcome decided per path with z3 and replayed natively on a pty.",
+ "Trusted: gosx, paint stubs (display painting not observed), terminal stub; external-editor commands are out of scope; SIGWINCH goroutine never scheduled.",
+ "symbolic execution of the real SSA (Readline loop) + SMT (z3) feasibility of panic/deadlock/spin paths", "DESIGN.md §5 C01")
+CLAIMED["C02"] = ("Bounded symbolic model checking of typed-text fidelity: n symbolic printable runes (exact unicode.IsPrint formula) per class are delivered as UTF-8 plus Enter to the real Readline loop in emacs and vi-insert; the returned line must equal the typed text; ASCII under symbolic meta variables.",
+ "Trusted: gosx, paint stubs, terminal stub.",
+ "symbolic execution of the real SSA (Readline loop) + SMT (z3) equality assertion", "DESIGN.md §5 C02")
+CLAIMED["C06"] = ("Bounded symbolic model checking of cursor/selection invariants and movement purity: one inductive step from a symbolic buffer/cursor/mark per movement or copy command (by name, with numeric arguments, key-reading ones with a symbolic argument byte) in the real Readline loop; at every later input wait cursor and selection bounds, the vi-command on-a-character rule and buffer equality are asserted.",
+ "Trusted: gosx, paint stubs, terminal stub; pre-state components other than buffer/cursor/mark/mode have their post-init values.",
+ "symbolic execution of the real SSA (Readline loop) + SMT (z3) invariant assertions (one inductive step)", "DESIGN.md §5 C06")
+
 PENDING = {}
 
 NA = {
